@@ -11,37 +11,65 @@ Oracle: key-set algebra written from the statement (plain dicts / sets / loops) 
   join(inputs, on, defaults = ...)         -> one row per k in K, ascending by key, holding row(k)
   data / expiry                            -> k in P with a past expiry keeps the supplied value and is absent from the call log,
                                               every other k of K is in the call log exactly once
+Generalisation pass 2 (bug classes 11-20): several calls on ONE set of objects (sub-check session: state kept on the lifted function, the caller's own on / renames / defaults / inputs
+containers, one decorator object for two functions from one factory), one key in several raw types, one table object for two inputs / shared key column objects / the data table being an input,
+numbers-only keys around 2**53, function shapes (keyword-only, *rest, parameters left out, container defaults), the options that are off by default, sequences as cells / scalars of length 0-1 /
+ranges / dicts, calendar boundary keys. Class 20 (order of steps in a list of methods) has no counterpart here.
 Every evaluation may be repeated on the same objects after every cell of the first result was overwritten: the statement holds for
 each evaluation, so the second one is judged by the same model (this is how aliasing of result and operands / state kept between
 calls becomes visible without asserting more than the statement).
 """
+import datetime
 import json
+import os
 from collections import Counter
 
+import numpy as np
 from hypothesis import strategies as st
 
 from pv.core import Sub, Violation, call, check, short
-from pv.codec import build, Env, D0, token
+from pv.codec import build as _codec_build, Env, D0, token, vtoken
+
+# a default value that is a list / tuple is spread over the rows it fills instead of being handed to each of them (see ASSUMPTIONS): generated only on request
+INCLUDE_SEQ_DEFAULTS = os.environ.get('PV_C20_INCLUDE_SEQ_DEFAULTS', '') == '1'
 
 ASSUMPTIONS = [
-    'key cells: per key column one of five universes - ints, strings (incl. ""), datetimes, ints and strings mixed, or (None, NaN, 1, "a", 2.5, "b"); NaN keys of different tables are different objects and count as the same key '
-    '(key matching as in C02); no int/float twins such as 1 and 1.0; keys are unique within each table (DESIGN G: for duplicate keys "one row per key" has no single reading and join logs a warning)',
+    'key cells: per key column one of seven universes - ints, strings (incl. ""), datetimes, ints and strings mixed, (None, NaN, 1, "a", 2.5, "b"), numbers only (2**53+1, 2.0**53, NaN, -0.0, 2.5, -3) or calendar boundary '
+    'datetimes (28 Feb 2023 at 00:00 and 12:00, 31 Dec 2023 at 00:00 and 23:59:59, 1 Jan 2024, 29 Feb 2024); NaN keys of different tables are different objects and count as the same key '
+    '(key matching as in C02); keys are unique within each table (DESIGN G: for duplicate keys "one row per key" has no single reading and join logs a warning); 0 and -0.0 never meet in one key column',
+    'raw types of key cells: in ~1 case in 7 a table (also the data / expiry tables) spells its numeric keys as numpy.int64 / numpy.float64, small ints as floats, datetimes as numpy.datetime64, or a mix row by row; '
+    'these count as the same key as the python value (==, and pyg_base.cmp, agree) and the result may carry any of the spellings (keys are then compared by value). Only for |x| < 2**31: numpy compares an int64 with a '
+    'float64 after rounding, so numpy.int64(2**53+1) == numpy.float64(2**53) and "the same key" has no single reading. pd.Timestamp key cells are not generated (cmp ranks by type name, a Timestamp never matches the '
+    'equal datetime: key matching is the matter of C02 / C07), nor datetime.date ones (python says date != datetime, the library matches them)',
     'large cases: int keys 0..250 (two key columns: id // 16, id % 16), tables of 64 / 65 / 100 / 128 / 200 rows next to tables of the same length or an eighth of it, values cycling through 1-3 scalars',
     'every table input carries every column of `on` (1 or 2 key columns); tables keyed by a subset of `on` (cross join) are not claimed',
-    'the value column of a table input is named after the input, or "data", or is the only non-key column (the three selections documented in join); an extra column (junk / <input>_x / <first key>_x; or "data" next to a column '
-    'named after the input, which then wins) only accompanies the first two',
+    'the value column of a table input is named after the input, or "data", or is the only non-key column, or is named by renames = {input: column} (a single table also: renames = column) - the four selections '
+    'documented in join; an extra column (junk / <input>_x / <first key>_x; or "data" next to a column named after the input / named by renames, which then wins) only accompanies the first two and the last; '
+    'with renames the library adds a column named after the input to the caller\'s table, which is not judged (see the last line)',
+    'one table object may be passed for two inputs (its value column is then "data" or the only non-key column), tables with the same key list may share the key column list objects, '
+    'and the data table may be one of the input tables itself (then every key of that table counts as computed before, with the table\'s value)',
     'names: plain scheme inputs (a, y, c, z) keys (k, j, m); nested scheme inputs (a, aa, ka, data_a) keys (k, kk, k_a) - substrings / prefixes / suffixes of one another and of "data", never equal to each other, to data / expiry, or to a dictable attribute',
-    'table values and defaults are None, ints, finite floats or strings (a callable default is a formula, lists/tuples would be spread over rows by dictable); a non-table input is one of these or a list/tuple of 0-4 ints, which is one value handed whole to every row; defaults may also name an input that is not supplied (no effect)',
-    'defaults: an explicit dict (possibly {}) is the complete list of defaults whatever defaults f has in its signature; with defaults = None the keyword defaults of f\'s signature are the defaults '
-    '(perdictable docstring / argspec_defaults; join() itself has no f, there None means no defaults); every parameter of f is always supplied; if_none / output_is_input / include_inputs / col / renames keep their default values',
-    'f has one parameter per input (those with a signature default last) and none called data or expiry; it returns a tuple of its arguments, its first argument, None, 0, "", False or a fresh []',
+    'table values are None, ints, finite floats, strings or (one table in 7) lists / tuples of 0-3 ints, also exactly as long as the table; a non-table input is one of the scalars or a list / tuple / range of 0-4 ints or a dict, '
+    'which is one value handed whole to every row; defaults are scalars or dicts (a callable default is a formula); defaults may also name an input that is not supplied (no effect)',
+    'KNOWN DEFECT kept out of the generator (switch PV_C20_INCLUDE_SEQ_DEFAULTS=1 puts it in): a default that is a list or tuple is not "the default value" of the rows it fills - _join_dictable_with_defaults hands it to '
+    'dictable.__call__ as a column: join(dict(a = dictable(k = [1,2,3], a = [1,2,3]), y = dictable(k = [3], y = [5])), on = "k", defaults = dict(y = (7,8))) gives y = [7, 8, 5], and any other length raises ValueError '
+    '(even when no row needs the default). Hence signature defaults that are containers are generated only where they do not act as join defaults (explicit defaults dict, parameter left out, non-table input)',
+    'defaults: an explicit dict (possibly {}) is the complete list of defaults whatever defaults f has in its signature; with defaults = None the keyword defaults of f\'s signature (keyword-only ones included) are the defaults '
+    '(perdictable docstring / argspec_defaults; join() itself has no f, there None means no defaults)',
+    'f names every input as a parameter - positional-or-keyword or keyword-only, those with a signature default last, optionally followed by *rest (which must stay empty) - and none called data or expiry; a **kw catch-all is not '
+    'generated (dictable presents to a function the columns its signature names: "no parameters are presented to f", kwpartial docstring); a parameter with a signature default may be left out by the caller (at least one input is '
+    'supplied: quantifier 1..4 inputs), f then receives its declared default, whole; f returns a tuple of its arguments, its first argument, None, 0, "", False or a fresh []',
+    'options: include_inputs = True (the result then also carries the input columns: only the key columns and data are judged), output_is_input = False / ["data"], renames, and the decorator form perdictable(on = ..)(f) are varied; '
+    'if_none and col keep their defaults (if_none = True recomputes a kept None, which the statement excludes; col renames the value column and the data keyword)',
     'for an empty key set only "None or a table without rows" is asserted (DESIGN section 3 rule 2)',
     'expiry sub-check: at least one table input has no default, so the key set is an intersection and is not widened by the (outer-joined) data / expiry tables',
     'expiry sub-check: expiries are assigned to previously computed keys only (quantifier); a key with a past expiry but no supplied value (pyg-base returns None for it without calling f) is not generated',
     'expiry sub-check: previously computed keys that are no longer in the join (stale) are supplied only when the join is non-empty: with an empty join perdictable hands back the supplied data table as it is',
-    'expiries are datetime.datetime in year 1-2000 (past) or 2999-9999 (future), never today-relative (so "exactly today" cannot be generated); datetime.date expiries are not claimed (dt(0) is a datetime and cannot be compared with a date)',
+    'expiries are instants in year 1-2000 (past) or 2999-9999 (future) given as datetime.datetime, numpy.datetime64 or (years 1700-2250) pd.Timestamp, never today-relative (so "exactly today" cannot be generated); datetime.date expiries are not claimed (dt(0) is a datetime and cannot be compared with a date)',
     'order of key cells of different types, None and NaN is judged with pyg_base.cmp (verified by C07); cells of one type with native <',
     'operands unchanged is not asserted (the statement is silent); a repeated evaluation on the same objects must satisfy the statement again',
+    'session sub-check: the tables, the `on` list, the renames / defaults / inputs dicts, the decorator object and the lifted functions are built once and shared by 2-4 calls (no large tables); every call is judged by the '
+    'single-call model on the ORIGINAL content of those containers (perdictable writes data / expiry entries into the caller\'s defaults dict: harmless, not judged); each call supplies at least one input',
 ]
 
 NAMES = {'plain': ['a', 'y', 'c', 'z'], 'nested': ['a', 'aa', 'ka', 'data_a']}
@@ -57,8 +85,31 @@ LARGE_MOD = 251
 _val = st.one_of(st.none(), st.integers(0, 5), st.sampled_from([0.5, 2.0]), st.sampled_from(['u', 'uv', '']))
 # a non-table input may itself be a sequence (a vector of weights, say): it is one value, handed whole to every row - also when its length is the number of rows
 _seqval = st.tuples(st.sampled_from(['list', 'tuple']), st.lists(st.integers(0, 5), max_size=4)).map(list)
-_scalar_input = st.one_of(_val, _val, _val, _seqval)
-_old = st.one_of(st.sampled_from(['old', 'old2']), st.none(), st.sampled_from([0, '', 0.0, False]), st.integers(1, 5))
+# ... of every short length (0 and 1 next to longer ones), a range, or a dict (one keyed like the key columns)
+_seqval2 = st.one_of(st.tuples(st.sampled_from(['list', 'tuple', 'range']), st.integers(0, 3).map(lambda n: list(range(n)))).map(list),
+                     st.sampled_from([['dict', [['z', 1]]], ['dict', [['k', 2], ['data', 0]]], ['dict', []]]))
+_scalar_input = st.one_of(_val, _val, _val, _val, _val, _val, _seqval, _seqval, _seqval2)
+# a table cell may be a sequence too (one value of that row)
+_cellseq = st.tuples(st.sampled_from(['list', 'tuple']), st.lists(st.integers(0, 5), max_size=3)).map(list)
+_cell = st.one_of(_val, _val, _cellseq)
+_old = st.one_of(st.sampled_from(['old', 'old2']), st.none(), st.sampled_from([0, '', 0.0, False]), st.integers(1, 5),
+                 st.sampled_from(['old', None, 0, ['list', [1, 2]], ['tuple', [3]], ['list', []]]))
+# default values: scalars and dicts; lists / tuples only on request (INCLUDE_SEQ_DEFAULTS)
+_dictval = st.sampled_from([['dict', [['z', 1]]], ['dict', [['k', 2]]]])
+_dval = st.one_of(*([_val] * 9 + [_dictval] + ([_seqval, _seqval] if INCLUDE_SEQ_DEFAULTS else [])))
+_SEQTAGS = ('list', 'tuple', 'range')
+BIG = 2 ** 53
+
+
+def _is_seq_spec(v):
+    return isinstance(v, list) and len(v) == 2 and v[0] in _SEQTAGS
+
+
+def build(v, env=None):
+    """codec.build plus a range"""
+    if isinstance(v, list) and v and v[0] == 'range':
+        return range(len(v[1]))
+    return _codec_build(v, env)
 
 
 def _universe(kind, n):
@@ -70,6 +121,10 @@ def _universe(kind, n):
         return [['dt', D0 + i, 0] for i in range(n)]
     if kind == 'wide':
         return [None, ['nan', 0], 1, 'a', 2.5, 'b'][:n]
+    if kind == 'num':       # numbers only: an int beyond 2**53 next to the float it would round to, NaN, -0.0
+        return [BIG + 1, float(BIG), ['nan', 0], -0.0, 2.5, -3][:n]
+    if kind == 'dtb':       # calendar boundary days, two of them twice (midnight and later the same day)
+        return [['dt', 738579, 0], ['dt', 738579, 43200], ['dt', 738885, 0], ['dt', 738885, 86399], ['dt', 738886, 0], ['dt', 738945, 0]][:n]
     ints = list(range(1, 1 + (n + 1) // 2))
     return ints + ['a', 'b', 'c'][:n - len(ints)]
 
@@ -140,28 +195,38 @@ def _large_key(i, nk):
 
 
 @st.composite
-def _case(draw, tier, want):
+def _case(draw, tier, want, allow_large=True):
     big = tier != 'quick'
     if want == 'join':
         draw(st.booleans())      # de-synchronises the join cases from the perdictable cases, which share seed and generator
-    large = draw(st.sampled_from([0, 0, 0, 0, 1, 0, 0, 0, 0, 0])) == 1
+    large = draw(st.sampled_from([0, 0, 0, 0, 1, 0, 0, 0, 0, 0])) == 1 and allow_large
     scheme = draw(st.sampled_from(['plain', 'nested']))
     nk = draw(st.sampled_from([1, 2]))
     on = list(draw(st.permutations(KEYCOLS[scheme])))[:nk]
     n = draw(st.sampled_from([2, 3, 1, 4, 2, 3]))
     names = list(draw(st.permutations(NAMES[scheme])))[:n]
+    rawcase = draw(st.sampled_from([0, 0, 0, 0, 0, 1, 0])) == 1      # key cells of one value in several raw types (python / numpy / float spellings)
 
     def valcol_extra():
-        valcol = draw(st.sampled_from(['self', 'data', 'other']))
+        valcol = draw(st.sampled_from(['self', 'data', 'other', 'self', 'data', 'other', 'self', 'data', 'other', 'renamed']))
         if valcol == 'other':
             return valcol, None
+        if valcol == 'renamed':    # the value column is named by renames = {input: column}; another non-key column (also: data) makes the choice necessary
+            return valcol, draw(st.sampled_from(['junk', 'data'] if scheme == 'plain' else ['name_x', 'key_x', 'data']))
         opts = [None, 'junk'] if scheme == 'plain' else [None, 'name_x', 'key_x']
         return valcol, draw(st.sampled_from(opts + (['data'] if valcol == 'self' else [])))
+
+    def cells(nrows):
+        seqtable = draw(st.sampled_from([0, 0, 0, 0, 0, 0, 1])) == 1
+        vals = [draw(_cell if seqtable else _val) for _ in range(nrows)]
+        if any(_is_seq_spec(v) for v in vals) and draw(st.booleans()):      # every sequence cell exactly as long as the table
+            vals = [[v[0], [(2 * r + c) % 7 for c in range(nrows)]] if _is_seq_spec(v) else v for r, v in enumerate(vals)]
+        return vals
 
     inputs = []
     if not large:
         usize = (3 if nk == 2 else 5) if not big else (4 if nk == 2 else 6)
-        unis = [_universe(draw(st.sampled_from(['int', 'str', 'dt', 'mixed', 'wide'])), usize) for _ in range(nk)]
+        unis = [_universe(draw(st.sampled_from(['int', 'str', 'dt', 'mixed', 'wide', 'num', 'dtb'])), usize) for _ in range(nk)]
         allkeys = [[a] for a in unis[0]] if nk == 1 else [[a, b] for a in unis[0] for b in unis[1]]
         rank = dict((_kid(k), r) for r, k in enumerate(allkeys))
         keyst = st.sampled_from(allkeys)
@@ -175,7 +240,13 @@ def _case(draw, tier, want):
             own = some([1, 0, 2, 3] if not big else [1, 0, 3, 5])
             # 0: own keys only, 1: base then own, 2: own then base, 3: base only, 4: the keys of base, same first and last, middle reversed (else: reversed)
             # 5: base reversed, 6: same length, same first and last key as base, other keys in between
-            use = draw(st.sampled_from([1, 2, 3, 0, 4, 6, 1, 2, 5, 4, 6]))
+            # 7: exactly the key list of the previous table, whose key column objects it then shares
+            use = draw(st.sampled_from([1, 2, 3, 0, 4, 6, 1, 2, 5, 4, 6, 7]))
+            if use == 7:
+                prevt = [t for t in inputs if t['kind'] == 'table']
+                if prevt and prevt[-1]['keys']:
+                    return list(prevt[-1]['keys']), cells(len(prevt[-1]['keys'])), True
+                use = 3
             if use == 4:
                 keys = [base[0]] + base[1:-1][::-1] + [base[-1]] if len(base) >= 4 else base[::-1]
             elif use == 5:
@@ -195,7 +266,7 @@ def _case(draw, tier, want):
             elif order == 'ends' and len(keys) >= 3:
                 lo, hi = min(keys, key=lambda k: rank[_kid(k)]), max(keys, key=lambda k: rank[_kid(k)])
                 keys = [lo] + [k for k in keys if k is not lo and k is not hi] + [hi]
-            return keys, [draw(_val) for _ in keys]
+            return keys, cells(len(keys)), False
 
         def stale_keys(K):
             have = set(_kid(k) for k in K)
@@ -207,33 +278,46 @@ def _case(draw, tier, want):
             if not first:
                 ln = draw(st.sampled_from(LARGE_N))
             else:
-                how = draw(st.sampled_from(['eighth', 'same', 'mirror', 'other']))
-                ln = first['n'] if how in ('same', 'mirror') else first['n'] // 8 if how == 'eighth' else draw(st.sampled_from(LARGE_N))
+                how = draw(st.sampled_from(['eighth', 'same', 'mirror', 'other', 'eighth', 'same', 'mirror', 'other', 'identical']))
+                ln = first['n'] if how in ('same', 'mirror', 'identical') else first['n'] // 8 if how == 'eighth' else draw(st.sampled_from(LARGE_N))
             mul = draw(st.sampled_from([7, 1, 250, 100]))
             off = draw(st.integers(0, LARGE_MOD - 1))
             ids = [(off + i * mul) % LARGE_MOD for i in range(ln)]
             if first and how == 'mirror':
                 ids = first['ids'][::-1]       # the key set of the first table in the opposite order
+            if first and how == 'identical':
+                ids = list(first['ids'])       # the key list of the first table itself (shared key column objects)
+            share = bool(first) and how == 'identical'
             if not first:
                 first.update(n=ln, ids=ids)
-            pat = draw(st.lists(_val, min_size=1, max_size=3))
-            return [_large_key(i, nk) for i in ids], [pat[i % len(pat)] for i in range(len(ids))]
+            pat = draw(st.lists(_cell if draw(st.sampled_from([0, 0, 0, 0, 0, 0, 1])) else _val, min_size=1, max_size=3))
+            return [_large_key(i, nk) for i in ids], [pat[i % len(pat)] for i in range(len(ids))], share
 
         def stale_keys(K):
             have = set(_kid(k) for k in K)
             return [k for k in [_large_key(i, nk) for i in draw(st.lists(st.integers(0, LARGE_MOD - 1), unique=True, max_size=2))] if _kid(k) not in have]
 
-    for name in names:
+    for idx, name in enumerate(names):
         if draw(st.sampled_from([0, 0, 0, 1])) == 1:
             inputs.append(dict(name=name, kind='scalar', value=draw(_scalar_input)))
             continue
-        keys, vals = table_keys()
+        if idx and draw(st.sampled_from([0, 0, 0, 0, 0, 0, 1])) == 1:
+            # the very same table object passed for two inputs (its value column is "data" or the only non-key column, so it serves any name)
+            src = [t for t in inputs if t['kind'] == 'table' and not t.get('alias')]
+            if src:
+                src = src[0]
+                if src['valcol'] not in ('data', 'other') or src['extra']:
+                    src['valcol'], src['extra'] = draw(st.sampled_from([('data', None), ('other', None)]))
+                inputs.append(dict(src, name=name, alias=src['name']))
+                continue
+        keys, vals, share = table_keys()
         valcol, extra = valcol_extra()
-        inputs.append(dict(name=name, kind='table', keys=keys, vals=vals, valcol=valcol, extra=extra, rev=draw(st.booleans())))
+        kraw = draw(st.sampled_from(['plain', 'np', 'float', 'mixed'])) if rawcase else 'plain'
+        inputs.append(dict(name=name, kind='table', keys=keys, vals=vals, valcol=valcol, extra=extra, rev=draw(st.booleans()), kraw=kraw, alias=None, sharekeys=share))
     defaults = []
     for name in (names if draw(st.booleans()) else names[::-1]):
         if draw(st.sampled_from([0, 0, 0, 1])) == 1:
-            defaults.append([name, draw(_val)])
+            defaults.append([name, draw(_dval)])
     absent = draw(st.sampled_from([0, 0, 0, 1, 2, 0]))
     if absent:
         d = [ABSENT[scheme], draw(_val)]
@@ -247,34 +331,70 @@ def _case(draw, tier, want):
         if sigdefs and draw(st.sampled_from([0, 1, 0])) == 1:
             defaults = []
     form = 'dict' if defaults else draw(st.sampled_from(['none', 'dict']))
+    # a parameter with a signature default may simply be left out by the caller: python itself hands f the declared default
+    for d in sigdefs:
+        if len([i for i in inputs if i['kind'] != 'omitted']) > 1 and draw(st.sampled_from([0, 0, 0, 0, 0, 0, 1])) == 1:      # (at least one input is supplied)
+            at = [x for x, i in enumerate(inputs) if i['name'] == d[0]][0]
+            if not any(i.get('alias') == d[0] for i in inputs) and not inputs[at].get('alias'):
+                inputs[at] = dict(name=d[0], kind='omitted')
+    shape = draw(st.sampled_from(['plain', 'plain', 'plain', 'plain', 'plain', 'plain', 'kwonly', 'kwonly', 'varargs'])) if want != 'join' else 'plain'
+    opts = draw(st.sampled_from([{}, {}, {}, {}, {}, {}, {}, {}, {}, {'include_inputs': True}, {'output_is_input': False}, {'output_is_input': ['data']}])) if want != 'join' else {}
     spec = dict(on=on, on_form=draw(st.sampled_from(['list', 'str'])) if nk == 1 else 'list', scheme=scheme, size='large' if large else 'small',
                 inputs=inputs, defaults=defaults, sigdefs=sigdefs, defaults_form=form,
-                positional=draw(st.booleans()), fret=draw(st.sampled_from(FRETS)), again=draw(st.booleans()))
+                positional=draw(st.booleans()), fret=draw(st.sampled_from(FRETS)), again=draw(st.booleans()),
+                shape=shape, opts=dict(opts), decorator=draw(st.sampled_from([False, False, False, True])) if want != 'join' else False)
+    ntab = len([i for i in inputs if i['kind'] == 'table'])
+    spec['renames_form'] = 'str' if ntab == 1 and want != 'expiry' and any(i['kind'] == 'table' and i['valcol'] == 'renamed' for i in inputs) and draw(st.booleans()) else 'dict'
     # half of the sequence-valued non-table inputs are exactly as long as the result: still ONE value for every row, not a column
     K = model_keys(spec)
     for i in inputs:
-        if i['kind'] == 'scalar' and isinstance(i['value'], list) and i['value'][0] in ('list', 'tuple') and K and 2 <= len(K) <= 8 and draw(st.booleans()):
-            i['value'] = [i['value'][0], [(3 * r + 1) % 7 for r in range(len(K))]]
+        if i['kind'] == 'scalar' and _is_seq_spec(i['value']) and K and 2 <= len(K) <= 8 and draw(st.booleans()):
+            i['value'] = [i['value'][0], [(3 * r + 1) % 7 for r in range(len(K))] if i['value'][0] != 'range' else list(range(len(K)))]
+    # signature defaults that are containers (as long as the result in half of the cases): where they do not act as join defaults they change nothing,
+    # where the parameter is left out they reach f whole
+    dn = set(d[0] for d in model_defaults(spec))
+    for d in sigdefs:
+        kind = [i['kind'] for i in inputs if i['name'] == d[0]][0]
+        if (INCLUDE_SEQ_DEFAULTS or form == 'dict' or kind != 'table') and draw(st.sampled_from([0, 0, 0, 1])) == 1:
+            ln = len(K) if K and 2 <= len(K) <= 8 and draw(st.booleans()) else draw(st.integers(0, 3))
+            d[1] = [draw(st.sampled_from(['tuple', 'list'])), [(2 * r + 3) % 7 for r in range(ln)]]
     if want != 'expiry':
         return spec
     # ---- expiry: needs a table input without default (see ASSUMPTIONS)
-    dnames = set(d[0] for d in model_defaults(spec))
-    if not any(i['kind'] == 'table' and i['name'] not in dnames for i in inputs):
+    if not any(i['kind'] == 'table' and i['name'] not in dn for i in inputs):
         head = inputs[0]
-        if head['kind'] == 'scalar':
-            keys, vals = table_keys()
+        if head['kind'] != 'table' or head.get('alias'):
+            keys, vals, share = table_keys()
             if not keys:
-                keys, vals = table_keys()
-            inputs[0] = head = dict(name=head['name'], kind='table', keys=keys, vals=vals, valcol='self', extra=None, rev=False)
+                keys, vals, share = table_keys()
+            inputs[0] = head = dict(name=head['name'], kind='table', keys=keys, vals=vals, valcol='self', extra=None, rev=False, kraw='plain', alias=None, sharekeys=False)
         spec['defaults'] = [d for d in defaults if d[0] != head['name']]
         spec['sigdefs'] = [d for d in sigdefs if d[0] != head['name']]
+    _draw_prev(draw, spec, large, stale_keys, rawcase)
+    return spec
+
+
+def _draw_prev(draw, spec, large, stale_keys, rawcase):
+    """the previously computed values of an expiry case: a data table over a subset P of the joined keys and an expiry for each key of P"""
+    inputs = spec['inputs']
     K = model_keys(spec)
+    have = set(_kid(k) for k in K)
     kinds = ['no', 'absent', 'none', 'past', 'past', 'future']
     prev = []
+    spec['data_is_input'] = None
 
     def entry(k, kind, old, **kw):
         return dict(key=k, value=old, kind=kind, when=draw(st.sampled_from(PAST)) if kind == 'past' else draw(st.sampled_from(FUTURE)) if kind == 'future' else None, **kw)
-    if not large:
+    cand = [i for i in inputs if i['kind'] == 'table' and not i.get('alias') and not any(j.get('alias') == i['name'] for j in inputs) and i['keys']]
+    if K and cand and draw(st.sampled_from([0, 0, 0, 0, 0, 0, 0, 1])) == 1:
+        # the data table IS one of the input tables (the same object): every key of that table was computed before, its value being the table's own
+        t = cand[0]
+        t['valcol'], t['extra'] = 'data', None
+        spec['data_is_input'] = t['name']
+        kpat = draw(st.lists(st.sampled_from(kinds[1:]), min_size=1, max_size=5))
+        for r, (k, v) in enumerate(zip(t['keys'], t['vals'])):
+            prev.append(entry(k, kpat[r % len(kpat)], v, **({} if _kid(k) in have else {'stale': True})))
+    elif not large:
         for k in K:
             kind = draw(st.sampled_from(kinds))
             if kind != 'no':
@@ -285,27 +405,39 @@ def _case(draw, tier, want):
         for r, k in enumerate(K):
             if kpat[r % len(kpat)] != 'no':
                 prev.append(entry(k, kpat[r % len(kpat)], opat[r % len(opat)]))
-    if K and draw(st.sampled_from([0, 0, 0, 1])) == 1:
-        for k in stale_keys(K):
-            prev.append(entry(k, draw(st.sampled_from(kinds[1:])), draw(_old), stale=True))
-    if len(prev) > 1 and draw(st.booleans()):
-        prev = list(draw(st.permutations(prev))) if len(prev) <= 8 else prev[::-1]
+    if not spec['data_is_input']:
+        if K and stale_keys is not None and draw(st.sampled_from([0, 0, 0, 1])) == 1:
+            for k in stale_keys(K):
+                prev.append(entry(k, draw(st.sampled_from(kinds[1:])), draw(_old), stale=True))
+        if len(prev) > 1 and draw(st.booleans()):
+            prev = list(draw(st.permutations(prev))) if len(prev) <= 8 else prev[::-1]
     spec['prev'] = prev
     spec['expcol'] = draw(st.sampled_from(['expiry', 'data']))
     spec['exp_rev'] = draw(st.booleans())               # expiry table lists its rows in the reverse order of the data table
     spec['empty_as'] = draw(st.sampled_from(['omit', 'table']))   # how an empty data / expiry table is passed
     spec['prev_first'] = draw(st.booleans())            # data / expiry are the first keyword arguments instead of the last
+    spec['exp_raw'] = draw(st.sampled_from(['dt', 'dt', 'dt', 'dt', 'ts', 'dt64', 'mixed']))     # one instant as datetime / pd.Timestamp / numpy datetime64
+    spec['prev_kraw'] = draw(st.sampled_from(['plain', 'np', 'float', 'mixed'])) if rawcase else 'plain'
     return spec
 
 
 # ----------------------------------------------------------------------------- builder
 
 def _norm(spec):
-    """replay files written before the generalisation pass lack the newer fields: fill in the values they implied"""
+    """replay files written before the generalisation passes lack the newer fields: fill in the values they implied"""
     spec = dict(spec)
-    for k, v in (('sigdefs', []), ('scheme', 'plain'), ('size', 'small'), ('positional', False), ('fret', 'tuple'), ('again', False), ('prev_first', False)):
+    for k, v in (('sigdefs', []), ('scheme', 'plain'), ('size', 'small'), ('positional', False), ('fret', 'tuple'), ('again', False), ('prev_first', False),
+                 ('shape', 'plain'), ('opts', {}), ('decorator', False), ('renames_form', 'dict'), ('kworder', None), ('exp_raw', 'dt'), ('prev_kraw', 'plain'),
+                 ('data_is_input', None)):
         spec.setdefault(k, v)
-    spec['inputs'] = [dict(i, extra='junk' if i.get('extra') is True else (i.get('extra') or None)) if i['kind'] == 'table' else i for i in spec['inputs']]
+    ins = []
+    for i in spec['inputs']:
+        if i['kind'] == 'table':
+            i = dict(i, extra='junk' if i.get('extra') is True else (i.get('extra') or None))
+            for k, v in (('kraw', 'plain'), ('alias', None), ('sharekeys', False)):
+                i.setdefault(k, v)
+        ins.append(i)
+    spec['inputs'] = ins
     return spec
 
 
@@ -313,36 +445,119 @@ def _extra_name(i, on):
     return {'junk': 'junk', 'data': 'data', 'name_x': i['name'] + '_x', 'key_x': on[0] + '_x'}[i['extra']]
 
 
+def _rawcell(c, mode, r):
+    """the key cell c spelled in another raw type: numpy scalars ('np'), floats for small ints ('float'), or row by row one of python / numpy / float ('mixed')"""
+    if mode == 'mixed':
+        mode = ('plain', 'np', 'float')[r % 3]
+    if mode == 'plain' or c is None or isinstance(c, (str, bool)):
+        return c
+    if isinstance(c, (int, float)) and not abs(c) < 2 ** 31:      # NaN; numbers where float64 runs out of precision (numpy compares an int64 with a float64 after rounding it)
+        return c
+    if isinstance(c, int):
+        return np.int64(c) if mode == 'np' else float(c)
+    if isinstance(c, float):
+        return np.float64(c) if mode == 'np' else c
+    if isinstance(c, datetime.datetime):
+        return np.datetime64(c, 'us' if r % 2 else 's') if mode == 'np' else c
+    return c
+
+
+def _rawdate(x, mode, r):
+    """the instant x as a datetime, a pd.Timestamp or a numpy datetime64 ('mixed': row by row)"""
+    if mode == 'mixed':
+        mode = ('dt', 'ts', 'dt64')[r % 3]
+    if mode == 'ts' and 1700 < x.year < 2250:
+        import pandas as pd
+        return pd.Timestamp(x)
+    if mode in ('ts', 'dt64'):
+        return np.datetime64(x, 'us')
+    return x
+
+
+def _plain(x):
+    if isinstance(x, np.datetime64):
+        return x.astype('datetime64[us]').astype(datetime.datetime)
+    if isinstance(x, np.integer):
+        return int(x)
+    if isinstance(x, np.floating):
+        return float(x)
+    return x
+
+
+def _ktok(x):
+    """value-level token of a key cell: 1, 1.0, numpy.int64(1) are one key, so are a datetime and the numpy datetime64 of the same instant"""
+    return vtoken(_plain(x))
+
+
+def _renames(spec):
+    return dict((i['name'], 'r_' + i['name']) for i in spec['inputs'] if i['kind'] == 'table' and i['valcol'] == 'renamed')
+
+
+_SESSION = [None]      # while a session case runs: json of an operand / container / function spec -> the ONE object built for it, shared by all calls of the session
+
+
+def _shared(key, make):
+    """the object for `key`: within a session the one built first, otherwise a new one"""
+    S = _SESSION[0]
+    if S is None:
+        return make()
+    if key not in S:
+        S[key] = make()
+    S['#uses'][key] += 1
+    return S[key]
+
+
 def _build(spec):
     from pyg_base import dictable
     env = Env()
     on = spec['on']
     inputs, built = {}, {}
+    keylists = {}
+    built['shared_keycols'] = False
     for i in spec['inputs']:
         name = i['name']
+        if i['kind'] == 'omitted':
+            continue
         if i['kind'] == 'scalar':
-            v = build(i['value'], env)
+            v = _shared('in:' + json.dumps(i, sort_keys=True), lambda: build(i['value'], env))
             inputs[name] = v
             built[name] = ('scalar', v)
             continue
-        vals = [build(v, env) for v in i['vals']]
-        cols = {}
-        kenv = Env()     # every table has its own NaN key object: keys of different tables are equal, never identical
-        for c, col in enumerate(on):
-            cols[col] = [build(k[c], kenv) for k in i['keys']]
+        if i.get('alias'):
+            inputs[name] = inputs[i['alias']]
+            built[name] = built[i['alias']]
+            built['keys:' + name] = built['keys:' + i['alias']]
+            continue
+        vc = name if i['valcol'] == 'self' else 'data' if i['valcol'] == 'data' else 'r_' + name if i['valcol'] == 'renamed' else 'val_' + name
+        kl = json.dumps([i['keys'], i['kraw']])
+
+        def make():
+            vals = [build(v, env) for v in i['vals']]
+            cols = {}
+            if i['sharekeys'] and kl in keylists:
+                for col in on:
+                    cols[col] = keylists[kl][col]          # the very list objects that are the key columns of an earlier table
+                built['shared_keycols'] = len(i['keys']) >= 2     # (dictable copies a one-row column)
+            else:
+                kenv = Env()     # every table has its own NaN key object: keys of different tables are equal, never identical
+                for c, col in enumerate(on):
+                    cols[col] = [_rawcell(build(k[c], kenv), i['kraw'], r) for r, k in enumerate(i['keys'])]
+            cols[vc] = vals
+            if i['extra']:
+                cols[_extra_name(i, on)] = [100 + r for r in range(len(vals))]
+            order = list(cols)
+            if i['rev']:
+                order.reverse()
+            if len(set(order)) != len(on) + 1 + bool(i['extra']):
+                raise RuntimeError('builder: column names of table %s collide: %s' % (name, order))
+            t = dictable({c: cols[c] for c in order})
+            if len(t) != len(vals) or sorted(t.keys()) != sorted(order):
+                raise RuntimeError('builder: table %s was not built as specified' % name)
+            return t, cols, vals
+        t, cols, vals = _shared('in:' + json.dumps([i, on], sort_keys=True), make)
+        keylists.setdefault(kl, cols)
+        inputs[name] = t
         built['keys:' + name] = list(zip(*[cols[col] for col in on])) if i['keys'] else []
-        vc = name if i['valcol'] == 'self' else 'data' if i['valcol'] == 'data' else 'val_' + name
-        cols[vc] = vals
-        if i['extra']:
-            cols[_extra_name(i, on)] = [100 + r for r in range(len(vals))]
-        order = list(cols)
-        if i['rev']:
-            order.reverse()
-        if len(set(order)) != len(on) + 1 + bool(i['extra']):
-            raise RuntimeError('builder: column names of table %s collide: %s' % (name, order))
-        inputs[name] = dictable({c: cols[c] for c in order})
-        if len(inputs[name]) != len(vals) or sorted(inputs[name].keys()) != sorted(order):
-            raise RuntimeError('builder: table %s was not built as specified' % name)
         built[name] = ('table', dict((_kid(k), v) for k, v in zip(i['keys'], vals)))
     defaults = {}
     for n, v in spec['defaults']:
@@ -351,6 +566,11 @@ def _build(spec):
     built['sigdefs'] = sig
     for n, v in (defaults if spec['defaults_form'] == 'dict' else sig).items():
         built['default:' + n] = v
+    for i in spec['inputs']:
+        if i['kind'] == 'omitted':
+            built[i['name']] = ('scalar', sig[i['name']])
+    if spec.get('kworder'):
+        inputs = dict((n, inputs[n]) for n in spec['kworder'] if n in inputs)
     return env, inputs, built, defaults
 
 
@@ -362,25 +582,59 @@ def _fvalue(fret, names, kw):
     return {'none': None, 'zero': 0, 'empty_str': '', 'false': False, 'empty_list': []}[fret]
 
 
-def _mkf(names, log, fret, sig=None):
-    """f(<names without signature default>, <names with one> = value): records its keyword arguments"""
+def _mkf(names, log, fret, sig=None, shape='plain'):
+    """f(<names without signature default>, <names with one> = value): records its keyword arguments.
+    shape kwonly: the parameters with a default (else the last one) are keyword-only; varargs: a trailing *rest, which must stay empty"""
     sig = sig or {}
 
-    def _rec(**kw):
+    def _rec(*rest, **kw):
+        if rest:
+            kw['*rest'] = rest
         log.append(kw)
         return _fvalue(fret, names, kw)
     env = {'_rec': _rec}
     params = [n for n in names if n not in sig]
+    dparams = []
     for n in names:
         if n in sig:
             env['_sig_' + n] = sig[n]
-            params.append('%s = _sig_%s' % (n, n))
-    return eval('lambda %s: _rec(%s)' % (', '.join(params), ', '.join('%s = %s' % (n, n) for n in names)), env)
+            dparams.append('%s = _sig_%s' % (n, n))
+    if shape == 'kwonly':
+        params = params + ['*'] + dparams if dparams else params[:-1] + ['*'] + params[-1:]
+    else:
+        params = params + dparams + (['*rest'] if shape == 'varargs' else [])
+    return eval('lambda %s: _rec(%s%s)' % (', '.join(params), '*rest, ' if shape == 'varargs' else '', ', '.join('%s = %s' % (n, n) for n in names)), env)
+
+
+def _lift(spec, f, dflt, log):
+    """the perdictable object of the case: perdictable(f, on, renames, defaults, **options), by keyword or position, directly or as a decorator object applied to f.
+    Within a session: the same `on` list, renames and defaults dict OBJECTS for every call (the caller's own containers), one decorator object per option set,
+    one lifted function per (decorator, signature, return kind)"""
+    from pyg_base import perdictable
+    ident = [spec['on'], spec['on_form'], spec['defaults'], spec['defaults_form'], spec['positional'], spec['opts'], _renames(spec), spec['renames_form']]
+    on = _shared('on:' + json.dumps(ident[:2]), lambda: _on_arg(spec))
+    rn = _renames(spec)
+    rn = _shared('rn:' + json.dumps([rn, spec['renames_form']], sort_keys=True), lambda: (list(rn.values())[0] if spec['renames_form'] == 'str' else rn) if rn else None)
+    dflt = _shared('df:' + json.dumps(ident[2:4]), lambda: dflt)
+    opts = spec['opts']
+
+    def mk(function):
+        if spec['positional']:
+            return call('perdictable(%s, on, renames, defaults%s)' % ('f' if function else None, ', **%s' % opts if opts else ''), lambda: perdictable(function, on, rn, dflt, **opts))
+        return call('perdictable(%son = on, renames = renames, defaults = defaults%s)' % ('f, ' if function else '', ', **%s' % opts if opts else ''),
+                    lambda: perdictable(function, on=on, renames=rn, defaults=dflt, **opts) if function else perdictable(on=on, renames=rn, defaults=dflt, **opts))
+    if not (spec['decorator'] or _SESSION[0] is not None):
+        return mk(f), f, log
+    dec = _shared('dec:' + json.dumps(ident, sort_keys=True), lambda: mk(None))
+    names = [i['name'] for i in spec['inputs']]
+    return _shared('p:' + json.dumps([ident, names, spec['sigdefs'], spec['fret'], spec['shape']], sort_keys=True), lambda: (call('decorator(f)', dec, f), f, log))
 
 
 def _cellcmp(a, b):
     """-1/0/1 order of two key cells: native within a type, pyg_base.cmp across types and for None / NaN"""
-    if type(a) is type(b) and a is not None and a == a and b == b:
+    a, b = _plain(a), _plain(b)
+    num = lambda x: isinstance(x, (int, float)) and not isinstance(x, bool) and x == x
+    if (type(a) is type(b) and a is not None and a == a and b == b) or (num(a) and num(b)):      # python compares an int with a float exactly
         return -1 if a < b else 1 if a > b else 0
     from pyg_base import cmp
     return call('cmp(%r, %r)' % (a, b), cmp, a, b)
@@ -394,15 +648,16 @@ def _keycmp(x, y):
     return 0
 
 
-def _check_keys(what, res, on, Kbuilt):
-    """res has exactly the keys K (nothing missing, nothing extra, none twice) in strictly ascending order; returns kid-token -> row index"""
+def _check_keys(what, res, on, Kbuilt, tok=token):
+    """res has exactly the keys K (nothing missing, nothing extra, none twice) in strictly ascending order; returns kid-token -> row index.
+    tok = token: cells keep their type; tok = _ktok where the tables spell one key in several raw types (the result may carry any of the spellings)"""
     n = len(res)
     for c in on:
         check(c in res.keys(), '%s: key column %s missing from the result columns %s', what, c, list(res.keys()))
     got = [tuple(res[c][r] for c in on) for r in range(n)]
-    gtok = [tuple(token(x) for x in g) for g in got]
+    gtok = [tuple(tok(x) for x in g) for g in got]
     gset = set(gtok)
-    exp = dict((tuple(token(x) for x in kb), kb) for kb in Kbuilt)
+    exp = dict((tuple(tok(x) for x in kb), kb) for kb in Kbuilt)
     missing = [exp[t] for t in exp if t not in gset]
     extra = [g for g, t in zip(got, gtok) if t not in exp]
     check(not missing and not extra and len(gtok) == len(gset) == len(exp),
@@ -418,6 +673,8 @@ def _argtok(row, names):
 
 def _check_calls(what, exp_calls, calls, names):
     """the call log of f is, as a multiset of argument tuples, exactly the rows that are to be computed: each once, nothing else"""
+    for c in calls:
+        check('*rest' not in c, '%s: f(%s, *rest) was handed the positional extras %s', what, ', '.join(names), c.get('*rest'))
     got_calls = Counter(_argtok(c, names) for c in calls)
     if got_calls != exp_calls:
         raise Violation('%s: f must be called exactly once for each row to be computed and for no other (%i calls expected, %i made); argument tuples (%s) never/too rarely called: %s; called but not expected / called too often: %s; call log: %s'
@@ -431,7 +688,15 @@ def _same(a, b):
 
 def _what(fn, spec, inputs, defaults, more=''):
     sig = ', f has the signature defaults %s' % dict((n, v) for n, v in spec['sigdefs']) if spec['sigdefs'] and fn != 'join' else ''
-    return '%s(on = %r, defaults = %s%s)(%s%s)' % (fn, _on_arg(spec), short(defaults, 80) if spec['defaults_form'] == 'dict' else None, sig, ', '.join('%s = %s' % (n, short(dict(v) if hasattr(v, 'keys') else v, 120)) for n, v in inputs.items()), more)
+    rn = _renames(spec)
+    opt = ''.join(', %s = %r' % kv for kv in sorted(spec['opts'].items())) if fn != 'join' else ''
+    opt += ', renames = %r' % (list(rn.values())[0] if spec['renames_form'] == 'str' else rn) if rn else ''
+    if fn != 'join' and spec['shape'] != 'plain':
+        sig += ', f is %s' % {'kwonly': 'declared with keyword-only parameters', 'varargs': 'f(..., *rest)'}[spec['shape']]
+    omitted = [i['name'] for i in spec['inputs'] if i['kind'] == 'omitted']
+    if omitted:
+        sig += ', the caller leaves out %s' % omitted
+    return '%s(on = %r, defaults = %s%s%s)(%s%s)' % (fn, _on_arg(spec), short(defaults, 80) if spec['defaults_form'] == 'dict' else None, opt, sig, ', '.join('%s = %s' % (n, short(dict(v) if hasattr(v, 'keys') and hasattr(v, 'inc') else v, 120)) for n, v in inputs.items()), more)
 
 
 def _on_arg(spec):
@@ -461,15 +726,84 @@ def _classes(spec, K, built, used_names):
         cls.append('positional')
     if len(spec['on']) == 2 and spec['on'] != sorted(spec['on']):
         cls.append('on_not_alphabetical')
-    if len(tables) < ni and tables:
+    if any(i['kind'] == 'scalar' for i in spec['inputs']) and tables:
         cls.append('scalar_broadcast')
     if any(i['kind'] == 'scalar' and _is_falsy_spec(i['value']) for i in spec['inputs']):
         cls.append('falsy_scalar')
-    seqs = [i['value'] for i in spec['inputs'] if i['kind'] == 'scalar' and isinstance(i['value'], list) and i['value'][0] in ('list', 'tuple')]
+    seqs = [i['value'] for i in spec['inputs'] if i['kind'] == 'scalar' and _is_seq_spec(i['value'])]
     if seqs:
         cls.append('sequence_valued_scalar')
         if any(len(v[1]) == len(K or []) for v in seqs) and len(K or []) >= 2:
             cls.append('sequence_valued_scalar_as_long_as_the_result')
+        if any(len(v[1]) <= 1 for v in seqs) and len(K or []) >= 2:
+            cls.append('sequence_valued_scalar_of_length_0_or_1')
+        if any(v[0] == 'range' for v in seqs):
+            cls.append('range_valued_scalar')
+    if any(i['kind'] == 'scalar' and isinstance(i['value'], list) and i['value'][0] == 'dict' for i in spec['inputs']):
+        cls.append('dict_valued_scalar')
+    # ---- classes of the second generalisation pass
+    if any(_is_seq_spec(v) for t in tables for v in t['vals'][:8]):
+        cls.append('sequence_valued_cell')
+        if any(_is_seq_spec(v) and len(v[1]) == len(t['vals']) for t in tables for v in t['vals'][:8] if len(t['vals']) >= 2):
+            cls.append('sequence_valued_cell_as_long_as_the_table')
+    dv = [v for n, v in model_defaults(spec)]
+    if any(isinstance(v, list) and v[0] == 'dict' for v in dv):
+        cls.append('dict_valued_default')
+    if any(_is_seq_spec(v) for v in dv):
+        cls.append('sequence_valued_default')
+    if any(_is_seq_spec(v) for n, v in spec['sigdefs']):
+        cls.append('container_signature_default')
+        if any(_is_seq_spec(v) and len(v[1]) == len(K or []) for n, v in spec['sigdefs']) and len(K or []) >= 2:
+            cls.append('container_signature_default_as_long_as_the_result')
+    omitted = [i['name'] for i in spec['inputs'] if i['kind'] == 'omitted']
+    if omitted:
+        cls.append('omitted_parameter_takes_signature_default')
+        if any(_is_seq_spec(v) for n, v in spec['sigdefs'] if n in omitted):
+            cls.append('omitted_parameter_with_container_default')
+    if spec['shape'] != 'plain':
+        cls.append('f_shape=' + spec['shape'])
+    for o, v in spec['opts'].items():
+        cls.append('option_%s=%s' % (o, 'list' if isinstance(v, list) else v))
+    if spec['decorator']:
+        cls.append('decorator_object_applied')
+    if _renames(spec):
+        cls.append('renames_selects_value_column')
+        if spec['renames_form'] == 'str':
+            cls.append('renames_as_string')
+    if any(t.get('alias') for t in tables):
+        cls.append('one_table_object_for_two_inputs')
+    if built.get('shared_keycols'):
+        cls.append('tables_share_key_column_objects')
+    if any(t['kraw'] != 'plain' for t in tables):
+        conv = lambda c: isinstance(c, (int, float)) and not isinstance(c, bool) or (isinstance(c, list) and c[0] == 'dt')
+        spell = {}
+        for t in tables:
+            for r, k in enumerate(t['keys'][:12]):
+                if all(conv(c) for c in k):
+                    spell.setdefault(_kid(k), set()).add(('plain', 'np', 'float')[r % 3] if t['kraw'] == 'mixed' else t['kraw'])
+        if spell:
+            cls.append('keys_in_several_raw_types')
+        if any(len(v) > 1 for kid, v in spell.items() if K and kid in set(_kid(k) for k in K[:12])):
+            cls.append('one_key_in_two_raw_types_matches')
+    unis = set()
+    for t in tables:
+        for k in t['keys'][:8]:
+            for c in k:
+                unis.add('n' if isinstance(c, (int, float)) and not isinstance(c, bool) or (isinstance(c, list) and c[0] == 'nan') else 'o')
+                if isinstance(c, list) and c[0] == 'dt' and c[1] > 738000:
+                    unis.add('b')
+    if unis and 'o' not in unis:
+        cls.append('numeric_only_keys')
+    allk = set(_kid([c]) for t in tables for k in t['keys'][:8] for c in k)
+    if _kid([BIG + 1]) in allk and _kid([float(BIG)]) in allk:
+        cls.append('int_beyond_2**53_next_to_float_key')
+    if _kid([-0.0]) in allk:
+        cls.append('negative_zero_key')
+    if 'b' in unis:
+        cls.append('calendar_boundary_keys')
+        days = Counter((col, c[1]) for t in tables[:1] for k in t['keys'] for col, c in enumerate(k) if isinstance(c, list) and c[0] == 'dt')
+        if any(len(set(c[2] for t in tables for k in t['keys'] if isinstance(k[col], list) and k[col][0] == 'dt' and k[col][1] == day for c in [k[col]])) > 1 for col, day in days):
+            cls.append('keys_on_one_day_at_different_times')
     if any(not t['keys'] for t in tables):
         cls.append('empty_table')
     if any(i['kind'] == 'table' and not i['keys'] for i in spec['inputs'][1:-1]):
@@ -586,21 +920,30 @@ def _rows(spec, K, built, names):
 
 # ----------------------------------------------------------------------------- perdictable without data / expiry
 
+def _tok_for(spec):
+    raw = any(i['kind'] == 'table' and i['kraw'] != 'plain' for i in spec['inputs']) or spec.get('prev_kraw', 'plain') != 'plain'
+    return _ktok if raw else token
+
+
+def _check_columns(what, res, on, opts):
+    if opts.get('include_inputs'):
+        check(all(c in res.keys() for c in on + ['data']), '%s: result columns are %s, expected (at least) the key columns and data', what, list(res.keys()))
+    else:
+        check(sorted(res.keys()) == sorted(on + ['data']), '%s: result columns are %s, expected the key columns and data', what, list(res.keys()))
+
+
 def run_perd(spec):
     spec = _norm(spec)
-    from pyg_base import perdictable, dictable
+    from pyg_base import dictable
     env, inputs, built, defaults = _build(spec)
     names = [i['name'] for i in spec['inputs']]
-    log = []
     fret = spec['fret']
-    f = _mkf(names, log, fret, built['sigdefs'])
+    log = []
     dflt = None if spec['defaults_form'] == 'none' else dict(defaults)
     what0 = _what('perdictable', spec, inputs, defaults)
-    if spec['positional']:
-        p = call('perdictable(f, on, None, defaults)', lambda: perdictable(f, _on_arg(spec), None, dflt))
-    else:
-        p = call('perdictable(f, on = on, defaults = defaults)', lambda: perdictable(f, on=_on_arg(spec), defaults=dflt))
+    p, f, log = _lift(spec, _mkf(names, log, fret, built['sigdefs'], spec['shape']), dflt, log)
     K = model_keys(spec)
+    tok = _tok_for(spec)
     used, dup = set(), False
     if K:
         Kb = [tuple(build(c, env) for c in k) for k in K]
@@ -610,7 +953,7 @@ def run_perd(spec):
         del log[:]
         res = call(what, lambda: p(**inputs))
         if K is None:
-            exp = _fvalue(fret, names, inputs)
+            exp = _fvalue(fret, names, dict((n, built[n][1]) for n in names))
             check(type(res) is type(exp) and _same(res, exp), '%s: all inputs are scalars, expected f(...) = %s itself, got %s', what, exp, res)
             check(len(log) == 1, '%s: all inputs are scalars but f was called %s times', what, len(log))
         elif not K:
@@ -619,11 +962,11 @@ def run_perd(spec):
             check(len(log) == 0, '%s: there are no rows but f was called with %s', what, log)
         else:
             check(isinstance(res, dictable), '%s: expected a table, got %s', what, res)
-            where = _check_keys(what, res, spec['on'], Kb)
-            check(sorted(res.keys()) == sorted(spec['on'] + ['data']), '%s: result columns are %s, expected the key columns and data', what, list(res.keys()))
+            where = _check_keys(what, res, spec['on'], Kb, tok)
+            _check_columns(what, res, spec['on'], spec['opts'])
             for kb, row in zip(Kb, rows):
                 exp = _fvalue(fret, names, row)
-                got = res['data'][where[tuple(token(x) for x in kb)]]
+                got = res['data'][where[tuple(tok(x) for x in kb)]]
                 check(type(got) is type(exp) and _same(got, exp), '%s: the row of key %s holds %s, expected f applied to that key\'s values = %s', what, kb, got, exp)
             _check_calls(what, Counter(toks), list(log), names)
         return res
@@ -648,14 +991,27 @@ def run_join(spec):
     dflt = None if spec['defaults_form'] == 'none' else dict(defaults)
     what0 = _what('join', spec, inputs, defaults)
     K = model_keys(spec)
+    tok = _tok_for(spec)
+    rn = _renames(spec)
+    rn = (list(rn.values())[0] if spec['renames_form'] == 'str' else rn) if rn else None
+    session = _SESSION[0] is not None
+    if session:      # the caller's own containers: one inputs dict, one `on` list, one renames and one defaults dict for all calls of the session that spell them alike
+        s_inputs = _shared('ind:' + json.dumps([spec['inputs'], spec.get('kworder')], sort_keys=True), lambda: inputs)
+        s_on = _shared('on:' + json.dumps([spec['on'], spec['on_form']]), lambda: _on_arg(spec))
+        s_rn = _shared('rn:' + json.dumps([_renames(spec), spec['renames_form']], sort_keys=True), lambda: rn)
+        s_dflt = _shared('df:' + json.dumps([spec['defaults'], spec['defaults_form']]), lambda: dflt)
     used = set()
     if K:
         Kb = [tuple(build(c, env) for c in k) for k in K]
         rows, toks, used, dup = _rows(spec, K, built, names)
 
     def once(what):
-        if spec['positional']:
-            res = call(what, lambda: join(dict(inputs), _on_arg(spec), None, None if dflt is None else dict(dflt)))
+        if session:
+            res = call(what, lambda: join(s_inputs, s_on, s_rn, s_dflt) if spec['positional'] else join(s_inputs, on=s_on, renames=s_rn, defaults=s_dflt))
+        elif spec['positional']:
+            res = call(what, lambda: join(dict(inputs), _on_arg(spec), rn, None if dflt is None else dict(dflt)))
+        elif rn:
+            res = call(what, lambda: join(dict(inputs), on=_on_arg(spec), renames=rn, defaults=None if dflt is None else dict(dflt)))
         else:
             res = call(what, lambda: join(dict(inputs), on=_on_arg(spec), defaults=None if dflt is None else dict(dflt)))
         check(isinstance(res, dictable), '%s: expected a table, got %s', what, res)
@@ -665,10 +1021,10 @@ def run_join(spec):
         elif not K:
             check(len(res) == 0, '%s: no key is present in every table input, expected no rows, got %s', what, dict(res))
         else:
-            where = _check_keys(what, res, spec['on'], Kb)
+            where = _check_keys(what, res, spec['on'], Kb, tok)
             check(sorted(res.keys()) == sorted(spec['on'] + names), '%s: result columns are %s, expected the key columns and one column per input', what, list(res.keys()))
             for kb, row in zip(Kb, rows):
-                r = where[tuple(token(x) for x in kb)]
+                r = where[tuple(tok(x) for x in kb)]
                 for n in names:
                     check(_same(res[n][r], row[n]), '%s: at key %s column %s is %s, expected %s', what, kb, n, res[n][r], row[n])
         return res
@@ -684,7 +1040,7 @@ def run_join(spec):
 
 def run_expiry(spec):
     spec = _norm(spec)
-    from pyg_base import perdictable, dictable
+    from pyg_base import dictable
     env, inputs, built, defaults = _build(spec)
     names = [i['name'] for i in spec['inputs']]
     on = spec['on']
@@ -704,20 +1060,31 @@ def run_expiry(spec):
     olds = [build(p_['value'], env) for p_ in prev]
     extra = {}
     more = ''
-    if prev or spec['empty_as'] == 'table':
-        kenv = Env()
-        cols = dict((c, [build(p_['key'][i], kenv) for p_ in prev]) for i, c in enumerate(on))
-        cols['data'] = list(olds)
-        extra['data'] = dictable(cols)
+    pk = spec['prev_kraw']
+    if spec['data_is_input']:
+        t = [i for i in spec['inputs'] if i['name'] == spec['data_is_input']][0]
+        if [p_['key'] for p_ in prev] != t['keys'] or [p_['value'] for p_ in prev] != t['vals'] or t['valcol'] != 'data' or t['extra']:
+            raise RuntimeError('expiry case: the data table is said to be input %s but does not agree with it' % t['name'])
+        extra['data'] = inputs[t['name']]
+        more += ', data = the table passed as %s' % t['name']
+    elif prev or spec['empty_as'] == 'table':
+        def mkdata():
+            kenv = Env()
+            cols = dict((c, [_rawcell(build(p_['key'][i], kenv), pk, r) for r, p_ in enumerate(prev)]) for i, c in enumerate(on))
+            cols['data'] = list(olds)
+            return dictable(cols), cols
+        extra['data'], cols = _shared('data:' + json.dumps([prev, on, pk], sort_keys=True), mkdata)
         more += ', data = %s' % short(cols, 200)
     erows = [p_ for p_ in prev if p_['kind'] != 'absent']
     if spec['exp_rev']:
         erows = erows[::-1]
     if erows or spec['empty_as'] == 'table':
-        kenv = Env()
-        cols = dict((c, [build(p_['key'][i], kenv) for p_ in erows]) for i, c in enumerate(on))
-        cols[spec['expcol']] = [None if p_['kind'] == 'none' else build(p_['when'], env) for p_ in erows]
-        extra['expiry'] = dictable(cols)
+        def mkexp():
+            kenv = Env()
+            cols = dict((c, [_rawcell(build(p_['key'][i], kenv), pk, r + 1) for r, p_ in enumerate(erows)]) for i, c in enumerate(on))
+            cols[spec['expcol']] = [None if p_['kind'] == 'none' else _rawdate(build(p_['when'], env), spec['exp_raw'], r) for r, p_ in enumerate(erows)]
+            return dictable(cols), cols
+        extra['expiry'], cols = _shared('exp:' + json.dumps([erows, on, pk, spec['expcol'], spec['exp_raw']], sort_keys=True), mkexp)
         more += ', expiry = %s' % short(cols, 200)
     for tname in ('data', 'expiry'):
         if tname in extra and sorted(extra[tname].keys()) != sorted(on + [tname if tname == 'data' else spec['expcol']]):
@@ -728,13 +1095,10 @@ def run_expiry(spec):
         args = dict(inputs)
         args.update(extra)
     log = []
-    f = _mkf(names, log, fret, built['sigdefs'])
     dflt = None if spec['defaults_form'] == 'none' else dict(defaults)
     what0 = _what('perdictable', spec, inputs, defaults, more)
-    if spec['positional']:
-        p = call('perdictable(f, on, None, defaults)', lambda: perdictable(f, _on_arg(spec), None, dflt))
-    else:
-        p = call('perdictable(f, on = on, defaults = defaults)', lambda: perdictable(f, on=_on_arg(spec), defaults=dflt))
+    p, f, log = _lift(spec, _mkf(names, log, fret, built['sigdefs'], spec['shape']), dflt, log)
+    tokf = _tok_for(spec)
     used = set()
     kinds = Counter()
     plan = []     # per key of K: (built key, row, kind, old value)
@@ -757,11 +1121,11 @@ def run_expiry(spec):
             check(len(log) == 0, '%s: there are no rows but f was called with %s', what, log)
             return res
         check(isinstance(res, dictable), '%s: expected a table, got %s', what, res)
-        where = _check_keys(what, res, on, Kb)
-        check(sorted(res.keys()) == sorted(on + ['data']), '%s: result columns are %s, expected the key columns and data', what, list(res.keys()))
+        where = _check_keys(what, res, on, Kb, tokf)
+        _check_columns(what, res, on, spec['opts'])
         exp_calls = Counter()
         for kb, row, tok, kind, old in plan:
-            got = res['data'][where[tuple(token(x) for x in kb)]]
+            got = res['data'][where[tuple(tokf(x) for x in kb)]]
             if kind == 'past':
                 check(type(got) is type(old) and _same(got, old), '%s: key %s was computed before (%s) with an expiry in the past, it must keep that value but holds %s', what, kb, old, got)
             else:
@@ -810,7 +1174,171 @@ def run_expiry(spec):
     if spec['prev_first'] and extra:
         cls.append('data_expiry_first_kwargs')
     cls.append('expcol=' + spec['expcol'])
+    if spec['data_is_input']:
+        cls.append('data_table_is_also_an_input')
+    if 'expiry' in extra:
+        raws = set(type(v).__name__ for v in extra['expiry'][spec['expcol']] if v is not None)
+        if raws - {'datetime'}:
+            cls.append('expiry_as_timestamp_or_datetime64')
+        if any(type(v).__name__ == 'datetime64' and _plain(v).year < 2500 for v in extra['expiry'][spec['expcol']] if v is not None):
+            cls.append('past_expiry_as_datetime64')
+        if len(raws) > 1:
+            cls.append('expiries_in_several_raw_types')
+    if any(isinstance(old, (list, tuple)) for kb, row, tok, kind, old in plan if kind == 'past'):
+        cls.append('sequence_valued_previous_value_kept')
+    if spec['prev_kraw'] != 'plain' and prev:
+        cls.append('previous_keys_in_other_raw_types')
     return dict(nt=nt, cls=sorted(set(cls)))
+
+
+# ----------------------------------------------------------------------------- several calls on the same objects
+
+def _variant(draw, base, how):
+    """a call derived from the base call: same operand specs (hence, inside a session, the same objects) except for what `how` changes"""
+    c = json.loads(json.dumps(base))
+    ins = c['inputs']
+    tabs = [x for x, i in enumerate(ins) if i['kind'] == 'table' and not i.get('alias') and not any(j.get('alias') == i['name'] for j in ins)]
+    if how == 'permute' and len(ins) > 1:
+        c['kworder'] = list(draw(st.permutations([i['name'] for i in ins])))
+    elif how == 'drop' and len([i for i in ins[:-1] if i['kind'] != 'omitted']) >= 1:
+        # one input fewer (the argument list of this call is a prefix of the other's): its default, if it has one, now names an input that is not supplied
+        # (preferably one that has a default, else the last one)
+        dn = [d[0] for d in model_defaults(c)]
+        free = [i for i in ins if not i.get('alias') and not any(j.get('alias') == i['name'] for j in ins)]
+        cand = [i for i in free if i['name'] in dn and i['kind'] == 'table'] or [i for i in free if i is ins[-1]]
+        rest = [i for i in ins if not cand or i is not cand[0]]
+        if cand and any(i['kind'] != 'omitted' for i in rest):
+            c['inputs'] = rest
+            c['sigdefs'] = [d for d in c['sigdefs'] if d[0] != cand[0]['name']]
+    elif how == 'shrink' and tabs:
+        t = ins[draw(st.sampled_from(tabs))]
+        m = draw(st.integers(0, max(0, len(t['keys']) - 1)))
+        t['keys'], t['vals'], t['sharekeys'] = t['keys'][:m], t['vals'][:m], False
+    elif how == 'scalar' and ins:
+        x = draw(st.integers(0, len(ins) - 1))
+        if not ins[x].get('alias') and not any(j.get('alias') == ins[x]['name'] for j in ins) and ins[x]['kind'] != 'omitted':
+            ins[x] = dict(name=ins[x]['name'], kind='scalar', value=draw(_scalar_input))
+    elif how == 'other_f':
+        c['fret'] = draw(st.sampled_from([r for r in FRETS if r != c['fret']]))
+    elif how == 'options':
+        c['opts'] = draw(st.sampled_from([{}, {'include_inputs': True}, {'output_is_input': False}]))
+    c['again'] = draw(st.sampled_from([False, False, True]))
+    return c
+
+
+@st.composite
+def _session_case(draw, tier):
+    """2-4 calls of perdictable(...)(...) / join(...) on one set of objects: the tables, the `on` list, the renames and defaults dicts, the decorator object and the
+    lifted functions are built ONCE and shared by all the calls that spell them alike; the calls are the base call again, with another keyword order, with one
+    input fewer / replaced / shortened, through the other entry point, with and without previously computed values, or with another function from the same factory"""
+    base = draw(_case(tier, 'expiry', allow_large=False))
+    tabs = [i for i in base['inputs'] if i['kind'] == 'table']
+    dn = set(d[0] for d in model_defaults(base))
+    if base['defaults_form'] == 'dict' and len([t for t in tabs if t['name'] not in dn]) >= 2 and draw(st.booleans()):
+        # one more outer-joined input, so that the defaults dict matters to the calls that share it
+        t = [t for t in tabs if t['name'] not in dn][-1]
+        base['defaults'] = base['defaults'] + [[t['name'], draw(_val)]]
+        _draw_prev(draw, base, False, None, base['prev_kraw'] != 'plain')
+    calls = []
+    for r in range(draw(st.sampled_from([2, 3, 2, 4]))):
+        how = draw(st.sampled_from(['same', 'permute', 'drop', 'shrink', 'scalar', 'other_f', 'options', 'same', 'drop'])) if r else 'same'
+        c = _variant(draw, base, how) if r else dict(json.loads(json.dumps(base)), again=draw(st.sampled_from([False, False, True])))
+        api = draw(st.sampled_from(['perd', 'expiry', 'join', 'expiry']))
+        dn = set(d[0] for d in model_defaults(c))
+        if api == 'expiry' and not any(i['kind'] == 'table' and i['name'] not in dn for i in c['inputs']):
+            api = 'perd'
+        if api == 'expiry':
+            changed = json.dumps(c['inputs']) != json.dumps(base['inputs'])
+            if changed or draw(st.sampled_from([0, 0, 1])):       # (else: the previously computed values of the base call, i.e. the same data / expiry objects)
+                _draw_prev(draw, c, False, None, c['prev_kraw'] != 'plain')
+            else:
+                for k in ('prev', 'data_is_input', 'expcol', 'exp_rev', 'empty_as', 'prev_first', 'exp_raw', 'prev_kraw'):
+                    c[k] = json.loads(json.dumps(base[k]))
+            if c['data_is_input'] and not changed:
+                t = [i for i in c['inputs'] if i['name'] == c['data_is_input']][0]
+                bt = [i for i in base['inputs'] if i['name'] == c['data_is_input']][0]
+                if (t['valcol'], t['extra']) != (bt['valcol'], bt['extra']):      # keep the operand as it is in the other calls
+                    t['valcol'], t['extra'] = bt['valcol'], bt['extra']
+                    _no_data_is_input(c)
+        if api == 'join':
+            # join() has no f: no signature defaults, parameters left out are simply not there
+            c['inputs'] = [i for i in c['inputs'] if i['kind'] != 'omitted']
+            c['sigdefs'] = []
+            if c.get('kworder'):
+                c['kworder'] = [n for n in c['kworder'] if any(i['name'] == n for i in c['inputs'])]
+            if c['renames_form'] == 'str' and len([i for i in c['inputs'] if i['kind'] == 'table']) != 1:
+                c['renames_form'] = 'dict'
+        if api != 'join' and c['renames_form'] == 'str' and (api == 'expiry' or len([i for i in c['inputs'] if i['kind'] == 'table']) != 1):
+            c['renames_form'] = 'dict'
+        if api != 'expiry':
+            for k in ('prev', 'data_is_input', 'expcol', 'exp_rev', 'empty_as', 'prev_first', 'exp_raw'):
+                c.pop(k, None)
+        calls.append(dict(api=api, how=how, spec=c))
+    if draw(st.booleans()):
+        calls.reverse()           # the base call comes last: after the calls with fewer / other operands
+    return dict(calls=calls)
+
+
+def _no_data_is_input(c):
+    """the previously computed values stay what they are but are passed as a table of their own"""
+    c['data_is_input'] = None
+
+
+def run_session(spec):
+    S = _SESSION[0] = {'#uses': Counter()}
+    try:
+        nt, rel = False, set()
+        for c in spec['calls']:
+            {'perd': run_perd, 'join': run_join, 'expiry': run_expiry}[c['api']](c['spec'])
+        calls = spec['calls']
+        for a, b in zip(calls, calls[1:]):
+            ia, ib = [[json.dumps(i, sort_keys=True) for i in x['spec']['inputs'] if i['kind'] != 'omitted'] for x in (a, b)]
+            shared = [i for i in ia if i in ib and '"table"' in i]
+            if shared:
+                rel.add('consecutive_calls_share_a_table_object')
+            if a['api'] != b['api']:
+                rel.add('api_%s_then_%s' % (a['api'], b['api']))
+            if ia == ib and a['api'] == b['api'] and a['spec'].get('kworder') == b['spec'].get('kworder'):
+                rel.add('same_operands_again')
+            elif ia != ib and sorted(ia) == sorted(ib) or (ia == ib and a['spec'].get('kworder') != b['spec'].get('kworder')):
+                rel.add('keyword_order_permuted')
+            elif len(ib) < len(ia) and [i for i in ia if i in ib] == ib:
+                rel.add('inputs_of_the_previous_call_but_one')
+                if ia[:len(ib)] == ib:
+                    rel.add('inputs_are_a_prefix_of_the_previous_call')
+            elif len(ia) < len(ib) and [i for i in ib if i in ia] == ia:
+                rel.add('inputs_extend_the_previous_call')
+            elif len(ia) == len(ib) and len([1 for x, y in zip(ia, ib) if x != y]) == 1:
+                rel.add('one_operand_replaced')
+            if 'expiry' in (a['api'], b['api']) and 'perd' in (a['api'], b['api']) and shared:
+                rel.add('with_and_without_previous_values')
+            if shared and (ia != ib or a['api'] != b['api'] or a['spec']['fret'] != b['spec']['fret']):
+                nt = True
+        for x, a in enumerate(calls):
+            for b in calls[x + 1:]:
+                if json.dumps([a['spec']['defaults'], a['spec']['defaults_form']]) == json.dumps([b['spec']['defaults'], b['spec']['defaults_form']]) and b['spec']['defaults_form'] == 'dict':
+                    na = set(i['name'] for i in a['spec']['inputs'] if i['kind'] != 'omitted')
+                    if any(i['kind'] == 'table' and i['name'] not in na and i['name'] in [d[0] for d in b['spec']['defaults']] for i in b['spec']['inputs']):
+                        rel.add('defaults_dict_first_used_without_an_input_it_names')
+        uses = S['#uses']
+        cls = ['calls=%i' % len(calls)] + sorted(rel)
+        if any(n > 1 for k, n in uses.items() if k.startswith('df:') and not k.startswith('df:[[], ')):
+            cls.append('one_defaults_dict_object_for_several_calls')
+        if any(n > 1 for k, n in uses.items() if k.startswith('dec:')) and len([k for k in uses if k.startswith('p:')]) > 1:
+            cls.append('one_decorator_object_for_two_functions')
+        if any(n > 1 for k, n in uses.items() if k.startswith('p:')):
+            cls.append('one_lifted_function_called_again')
+        if any(n > 1 for k, n in uses.items() if k.startswith('data:') or k.startswith('exp:')):
+            cls.append('one_data_or_expiry_table_object_for_several_calls')
+        if any(n > 1 for k, n in uses.items() if k.startswith('ind:')):
+            cls.append('one_inputs_dict_object_for_several_join_calls')
+        dfs = [k for k in uses if k.startswith('df:') and not k.startswith('df:[[], ')]
+        apis = set(c['api'] for c in calls)
+        if 'join' in apis and len(apis) > 1 and any(uses[k] > 1 for k in dfs):
+            cls.append('defaults_dict_passed_to_perdictable_and_to_join')
+        return dict(nt=nt, cls=cls)
+    finally:
+        _SESSION[0] = None
 
 
 class _SortKey(object):
@@ -821,11 +1349,31 @@ class _SortKey(object):
         return _keycmp(self.k, other.k) < 0
 
 
+# classes of the second generalisation pass (bug classes 11-20 of the builder brief): floors at about a third of the rates observed over seeds 1-3
+_NEW_COMMON = {'sequence_valued_scalar_of_length_0_or_1': 0.008, 'range_valued_scalar': 0.006, 'dict_valued_scalar': 0.02, 'sequence_valued_cell': 0.02,
+               'sequence_valued_cell_as_long_as_the_table': 0.008, 'dict_valued_default': 0.018, 'renames_selects_value_column': 0.03, 'one_table_object_for_two_inputs': 0.035,
+               'tables_share_key_column_objects': 0.01, 'keys_in_several_raw_types': 0.022, 'one_key_in_two_raw_types_matches': 0.01, 'numeric_only_keys': 0.1,
+               'int_beyond_2**53_next_to_float_key': 0.025, 'negative_zero_key': 0.007, 'calendar_boundary_keys': 0.05, 'keys_on_one_day_at_different_times': 0.028}
+_NEW_F = {'container_signature_default': 0.03, 'container_signature_default_as_long_as_the_result': 0.011, 'omitted_parameter_takes_signature_default': 0.015,
+          'omitted_parameter_with_container_default': 0.003, 'f_shape=kwonly': 0.05, 'f_shape=varargs': 0.024, 'option_include_inputs=True': 0.016,
+          'option_output_is_input=False': 0.017, 'option_output_is_input=list': 0.012, 'decorator_object_applied': 0.06}
+_NEW_E = {'data_table_is_also_an_input': 0.024, 'expiry_as_timestamp_or_datetime64': 0.055, 'past_expiry_as_datetime64': 0.03, 'expiries_in_several_raw_types': 0.02,
+          'sequence_valued_previous_value_kept': 0.017, 'previous_keys_in_other_raw_types': 0.02}
+_NEW_S = {'calls=2': 0.2, 'calls=3': 0.07, 'calls=4': 0.06, 'consecutive_calls_share_a_table_object': 0.3, 'defaults_dict_first_used_without_an_input_it_names': 0.012,
+          'defaults_dict_passed_to_perdictable_and_to_join': 0.06, 'inputs_of_the_previous_call_but_one': 0.05, 'inputs_are_a_prefix_of_the_previous_call': 0.035, 'inputs_extend_the_previous_call': 0.035,
+          'keyword_order_permuted': 0.05, 'one_data_or_expiry_table_object_for_several_calls': 0.04, 'one_decorator_object_for_two_functions': 0.07,
+          'one_defaults_dict_object_for_several_calls': 0.14, 'one_inputs_dict_object_for_several_join_calls': 0.017, 'one_lifted_function_called_again': 0.2,
+          'one_operand_replaced': 0.065, 'same_operands_again': 0.11, 'with_and_without_previous_values': 0.1}
+
 _RULE = ('1-4 inputs (plain names a, y, c, z or nested names a, aa, ka, data_a) in any order, each a scalar or a table with unique keys over 1-2 key columns (k, j, m or k, kk, k_a in any order; '
          'cells from an int / string / datetime / int+string / None+NaN+int+float+string universe of 3-6 values so that overlapping, disjoint and empty key sets all occur; tables also as re-orderings of one '
          'another, with equal ends and other middles, pre-sorted), ~8% large cases (int keys 0..250, 64/65/100/128/200 rows, one table up to 8x longer, cyclic values), value column named after '
          'the input / "data" / sole other column plus look-alike extra columns, rows in arbitrary order; any subset of inputs with a default (also for absent inputs, any order, falsy values), f with signature defaults on any subset of its parameters combined with defaults = None (they are the defaults) or an explicit dict naming other / overlapping / no parameters (only the dict counts); on / defaults by keyword or position; '
-         'f returns a tuple of its arguments, its first argument, None, 0, "", False or []; half of the cases are evaluated a second time after overwriting the first result. ')
+         'f returns a tuple of its arguments, its first argument, None, 0, "", False or []; half of the cases are evaluated a second time after overwriting the first result. '
+         'Second pass: key universes of numbers only (2**53+1 next to 2.0**53, NaN, -0.0) and of calendar boundary datetimes (same day at two times); ~1 case in 7 spells keys as numpy scalars / floats / datetime64 per table; '
+         'one table object for two inputs, shared key column objects, cells that are lists / tuples (also as long as the table), non-table inputs that are ranges, dicts, sequences of length 0-1; dict defaults; '
+         'value column named by renames (dict or string); f with keyword-only parameters or *rest, parameters with a signature default left out, container signature defaults; '
+         'include_inputs / output_is_input options, decorator form. ')
 
 SUBS = [
     Sub('perdictable', lambda tier: _case(tier, 'perd'), run_perd, quick=3000, thorough=12000,
@@ -862,6 +1410,18 @@ SUBS = [
                                  'f_returns_falsy_and_past_rows': 0.07, 'large': 0.04, 'large_result>=64': 0.02, 'second_call': 0.15, 'names_nested': 0.3,
                                  'signature_default_not_in_explicit_defaults': 0.08, 'ignored_signature_default_would_change_the_keys': 0.03,
                                  'signature_defaults_are_the_defaults': 0.04, 'signature_default_fills_row': 0.005}),
+    Sub('session', lambda tier: _session_case(tier), run_session, quick=500, thorough=3000,
+        rule='a base case as in expiry (no large tables; in half of the cases one more defaulted table) and 1-3 variants of it - the same again, other keyword order, one input fewer (preferably a defaulted one), '
+             'one table shortened, one input replaced by a scalar, another function from the same factory, other options - each through perdictable, perdictable with data / expiry, or join, in either order; '
+             'the operand tables, the on list, the renames / defaults / inputs dicts, the data / expiry tables, the decorator object and the lifted functions are built ONCE per session and shared by all calls that spell them alike. '
+             'Every call is judged by the oracle of its own sub-check on the original content of the containers, so no call may depend on what was computed or passed before. '
+             'non-trivial = two consecutive calls share a table object and differ in inputs, entry point or function',
+        floor=0.2, class_floors={}),
 ]
 for _s in SUBS:
     _s.qshards = 8
+SUBS[3].qshards = 4
+SUBS[0].class_floors.update(_NEW_COMMON); SUBS[0].class_floors.update(_NEW_F); SUBS[0].class_floors['renames_as_string'] = 0.003
+SUBS[1].class_floors.update(_NEW_COMMON); SUBS[1].class_floors['renames_as_string'] = 0.0015
+SUBS[2].class_floors.update(_NEW_COMMON); SUBS[2].class_floors.update(_NEW_F); SUBS[2].class_floors.update(_NEW_E)
+SUBS[3].class_floors.update(_NEW_S)
